@@ -935,7 +935,7 @@ class _Simu(_IObserver, _params.Updatable, ABC):
         list_mesh: list[Mesh] = []
         for mesh in self.__listMesh:
             if isinstance(mesh, str):
-                mesh = Load_Mesh(Folder.Join(self.folder, mesh))
+                mesh = Load_Mesh(Folder.Join(self.__Get_meshes_folder(), mesh))
             list_mesh.append(mesh._Gather())
 
         if MPI_RANK == 0:
@@ -955,6 +955,14 @@ class _Simu(_IObserver, _params.Updatable, ABC):
         """simulation's dimension"""
         return self.__dim
 
+    def __Get_meshes_folder(self) -> str:
+        """Folder the mesh files were saved in (`Save` / `Load_Simu`): the meshes of a saved
+        simulation stay reachable whatever `simu.folder` is changed to afterwards."""
+        try:
+            return self.__meshesFolder
+        except AttributeError:
+            return self.folder
+
     def __Update_mesh(self, index: int) -> None:
         """Updates the mesh for the specified iteration.
 
@@ -967,7 +975,7 @@ class _Simu(_IObserver, _params.Updatable, ABC):
         mesh = self.__listMesh[index]
 
         if isinstance(mesh, str):
-            mesh = Load_Mesh(Folder.Join(self.folder, mesh))
+            mesh = Load_Mesh(Folder.Join(self.__Get_meshes_folder(), mesh))
 
         self.__mesh = mesh
 
@@ -3213,10 +3221,11 @@ class _Simu(_IObserver, _params.Updatable, ABC):
         list_mesh = []
         for i, mesh in enumerate(self.__listMesh):
             if isinstance(mesh, str):
-                mesh = Load_Mesh(Folder.Join(folder, mesh))
+                mesh = Load_Mesh(Folder.Join(self.__Get_meshes_folder(), mesh))
             path = mesh.Save(folder_meshes, f"mesh{i}")
             list_mesh.append(Folder.os.path.relpath(path, folder))
         self.__listMesh = list_mesh
+        self.__meshesFolder = folder
 
         # Save simulation
         with open(path_simu, "wb") as file:
@@ -3389,6 +3398,9 @@ def Load_Simu(folder: str, filename: str = "simulation", gather=False) -> _Simu:
     except EOFError:
         Terminal.MyPrintError(f"The file:\n{path_simu}\nis empty or corrupted.")
         return None  # type: ignore [return-value]
+
+    # the mesh files live next to the simulation file, wherever the folder has been moved to
+    simu._Simu__meshesFolder = folder
 
     if gather:
         simu._Gather()
